@@ -5,6 +5,7 @@ CONSTANTS
   FetchMax = 2
   HWFallback = FALSE
   ElectAlive = TRUE
+  AllowLag = FALSE
   ElectDown = FALSE
   MaxMsgs = 6
   MaxElect = 3
